@@ -116,19 +116,24 @@ def _public(ctx: Ctx, item):
             if _nontrivial(prio, d.pgn >> 16, (d.pgn >> 8) & 0xFF, dest, pdu1) or (not pdu1 and dest != 255):
                 ctx.nt((did, src, dest, prio))
             ctx.klass("public_pdu1" if pdu1 else ("public_pdu2_noncanonical" if dest != 255 else "public_pdu2"))
-            m = NMEA2000Message(PGN=msg0.PGN, id=msg0.id, fields=msg0.fields, source=src, destination=dest, priority=prio)
+            if msg0.PGN != d.pgn:
+                return [("C05|decoded-pgn", f"{did}: the message decoded from a payload of PGN {d.pgn} says PGN {msg0.PGN}", {"definition": did, "source": src, "destination": dest, "priority": prio})]
+            m = NMEA2000Message(PGN=d.pgn, id=d.id, fields=msg0.fields, source=src, destination=dest, priority=prio)
             e_dest = dest if pdu1 else 255
             exp = (d.pgn, src, e_dest, prio)
             enc = NMEA2000Encoder()
             case = {"definition": did, "source": src, "destination": dest, "priority": prio}
             # identifier bytes in the three frame formats
             idents = {}
-            pk = enc.encode_ebyte(m)[0]
-            idents["ebyte"] = int.from_bytes(pk[1:5], "big")
-            pk = enc.encode_usb(m)[0]
-            idents["usb"] = int.from_bytes(pk[5:9], "little")
-            pk = enc.encode_yacht_devices(m)[0]
-            idents["yd"] = int(pk[:8].decode(), 16)
+            try:
+                pk = enc.encode_ebyte(m)[0]
+                idents["ebyte"] = int.from_bytes(pk[1:5], "big")
+                pk = enc.encode_usb(m)[0]
+                idents["usb"] = int.from_bytes(pk[5:9], "little")
+                pk = enc.encode_yacht_devices(m)[0]
+                idents["yd"] = int(pk[:8].decode(), 16)
+            except Exception as e:
+                return [(f"C05|public-build|encode-error|{type(e).__name__}", f"{case}: the encoder refuses a benign message of an encodable definition: {e}", case)]
             for fmt, ident in idents.items():
                 if ref_parse(ident) != exp or ident >> 29:
                     out.append((f"C05|public-build|{fmt}", f"{case} wrote identifier {ident:#x} which reads as {ref_parse(ident)}", case))
@@ -247,9 +252,12 @@ def _public(ctx: Ctx, item):
 
         ctx.hyp(check, st.integers(0, 255), st.one_of(st.sampled_from([0, 255, 1, 254]), st.integers(0, 255)),
                 st.integers(0, 7), max_examples=n_examples, name="public")
-        m = NMEA2000Message(PGN=msg0.PGN, id=msg0.id, fields=msg0.fields, source=7, destination=42, priority=5)
-        ctx.sample({"definition": did, "source": 7, "destination": 42, "priority": 5,
-                    "ebyte_identifier": NMEA2000Encoder().encode_ebyte(m)[0][1:5].hex(), "examples_drawn": n_examples})
+        m = NMEA2000Message(PGN=d.pgn, id=d.id, fields=msg0.fields, source=7, destination=42, priority=5)
+        try:
+            ctx.sample({"definition": did, "source": 7, "destination": 42, "priority": 5,
+                        "ebyte_identifier": NMEA2000Encoder().encode_ebyte(m)[0][1:5].hex(), "examples_drawn": n_examples})
+        except Exception:
+            pass
 
 
 def _repeat(ctx: Ctx, keys):
